@@ -22,6 +22,8 @@ Check(e) ==
             /\ e.paired => e.out2 = e.out1)
 
 Init == l = 1
-Next == l <= Len(Trace) /\ Check(Trace[l]) /\ l' = l + 1
+\* (Check is compared with TRUE so that TLC evaluates it as one expression with short-circuit
+\* semantics instead of splitting its disjunctions into separate successor computations)
+Next == l <= Len(Trace) /\ (Check(Trace[l]) = TRUE) /\ l' = l + 1
 Spec == Init /\ [][Next]_l
 =============================================================================
